@@ -7,15 +7,22 @@ Open Scope nat_scope.
 (** after resize_widths_to_fit the column widths add up to at most the terminal width
     (so the assert! holds and no line can be wider than the terminal), and no column grows *)
 Theorem C19_resize_fits : forall w cols maxw,
-  NoDup cols -> length cols <= length w -> sum_widths (resize_widths w cols maxw) <= maxw.
+  NoDup cols -> sum_widths (resize_widths w cols maxw) <= maxw.
 Proof. exact resize_fits. Qed.
 Print Assumptions C19_resize_fits.
 
 Theorem C19_resize_no_growth : forall w cols maxw c n,
-  NoDup cols -> length cols <= length w -> In c cols ->
+  In c cols ->
   get c (resize_widths w cols maxw) = Some n -> n <= match get c w with Some m => m | None => 0 end.
 Proof. exact resize_no_growth. Qed.
 Print Assumptions C19_resize_no_growth.
+
+(** the allocation never divides by zero and never underflows a [usize], whatever the widths and
+    however many columns there are: [resize_loop_chk] is the loop with those machine faults explicit *)
+Theorem C19_resize_no_fault : forall cols w i remaining,
+  resize_loop_chk cols w i (i + length cols) remaining = Some (resize_loop cols w i (i + length cols) remaining).
+Proof. exact resize_loop_no_fault. Qed.
+Print Assumptions C19_resize_no_fault.
 
 (** a cell is exactly as wide as its column; it shows the whole text iff it fits, else a prefix and an ellipsis *)
 Theorem C19_cell_exact : forall inp limit,
